@@ -133,6 +133,7 @@ def run(ctx: Ctx):
            f"and the padding mask are laid out like the targets, (N, T) when batch_first else (T, N), so the "
            f"per-sequence average over non-padding prefixes needs axis (1, 0): otherwise prefixes are averaged across "
            f"the batch and short sequences are mis-weighted", rel, axes[0][0].lineno, sample=[u(c)[:80] for c, _, _ in axes])
+    _loss_tail_table(ctx, f, rel)
     # in optimal_completion: targets buffer filled with `padding`, scattered by count mask
     rdo = ReachingDefs(oc.node)
     fulls = [c for c in own_calls(oc.node) if call_name(c) == "torch.full" and len(c.args) >= 2]
@@ -168,6 +169,94 @@ def run(ctx: Ctx):
         not_decided=["targets are exactly the distance-preserving tokens", "duplicate collapsing", "loss values"],
         assumptions=["torch cross_entropy ignore_index semantics"],
     )
+
+
+def _loss_tail_table(ctx: Ctx, f, rel: str):
+    """S2 as a table: the tail of the hard OCD loss - from the target lists to the returned value - interpreted over exact values
+    (sa/interp.py with sa/teval.py; nothing is run). The target lists (three sequences x three prefixes x two slots, with prefixes
+    and a whole sequence that have no target) and the per-slot cross entropies (distinct rationals, zero where the target is the
+    ignore index, as cross_entropy defines) are given; the result is compared with the documented value for every reduction,
+    both layouts and a negative, a zero and a positive ignore index:
+
+        per prefix:  sum of the cross entropies of its targets / max(number of targets, 1)
+        'none' -> that matrix;  'sum' -> its total;  'mean' -> mean over sequences of (sum over prefixes / max(prefixes with a target, 1))"""
+    import numpy as np
+    from fractions import Fraction as Fr
+    from sa.interp import Interp
+    from sa.inteval import NotEvaluable
+    from sa.teval import frac_array
+    col = ctx.col
+    where = f"{rel}::{f.qualname}"
+    body = f.node.body
+    start = next((i for i, st in enumerate(body) if any(isinstance(c, ast.Call) and call_name(c) == "optimal_completion" for c in ast.walk(st))), None)
+    if start is None:
+        raise AnalysisError("C03: the hard OCD loss no longer calls optimal_completion")
+    tail = ast.FunctionDef(name="tail", args=f.node.args, body=body[start:], decorator_list=[], lineno=f.node.lineno)
+    T_ = [[[3, None], [2, 4], [None, None]], [[None, None], [None, None], [5, None]], [[None, None], [None, None], [None, None]]]  # (N, T, U)
+    LV = [[[Fr(2), Fr(3)], [Fr(5), Fr(7)], [Fr(11), Fr(13)]], [[Fr(17), Fr(19)], [Fr(23), Fr(29)], [Fr(31), Fr(37)]],
+          [[Fr(41), Fr(43)], [Fr(47), Fr(53)], [Fr(59), Fr(61)]]]
+    bad, n_rows = None, 0
+    try:
+        for ignore in (-100, 0, 9):
+            for bf in (True, False):
+                for red in ("none", "sum", "mean"):
+                    opt = np.array([[[ignore if x is None else x for x in row] for row in seq] for seq in T_], dtype=object)
+                    lv = frac_array(LV)
+                    if not bf:
+                        opt, lv = np.swapaxes(opt, 0, 1), np.swapaxes(lv, 0, 1)
+                    opt = frac_array(opt.tolist())
+
+                    def leaf(x, env, opt=opt, lv=lv):
+                        if isinstance(x, ast.Call):
+                            nm = call_name(x)
+                            if nm == "optimal_completion":
+                                return opt
+                            if nm.endswith("cross_entropy"):
+                                kws = {k.arg: k.value for k in x.keywords}
+                                if "reduction" not in kws or u(kws["reduction"]) != "'none'":
+                                    raise NotEvaluable("cross_entropy without reduction='none'")
+                                it_ = holder["it"]
+                                tg = it_.eval(x.args[1] if len(x.args) > 1 else kws["target"], env)
+                                ig = it_.eval(kws["ignore_index"], env) if "ignore_index" in kws else -100
+                                flat = lv.reshape(-1)
+                                if tg.shape != flat.shape:
+                                    raise NotEvaluable("cross_entropy target shape")
+                                return np.where(tg == ig, Fr(0), flat)
+                        return None
+                    holder = {}
+                    it = Interp(leaf=leaf, tensors=True)
+                    holder["it"] = it
+                    env = {a.arg: None for a in f.node.args.args}
+                    env.update(ignore_index=ignore, batch_first=bf, reduction=red, include_eos=True, warn=True,
+                               logits=frac_array(np.zeros(opt.shape[:2] + (6,), dtype=int).tolist()))
+                    kind, got = it.run(tail, env)
+                    n_rows += 1
+                    # documented value
+                    mask = np.array([[[x is not None for x in row] for row in seq] for seq in T_])
+                    L0 = frac_array(LV)
+                    cnt = mask.sum(2)
+                    per = (np.where(mask, L0, Fr(0)).sum(2)) / np.maximum(cnt, 1)  # (N, T)
+                    if red == "none":
+                        want = per if bf else per.T
+                    elif red == "sum":
+                        want = per.sum()
+                    else:
+                        want = sum(per[n_].sum() / max(int((cnt[n_] > 0).sum()), 1) for n_ in range(per.shape[0])) / per.shape[0]
+                    same = kind == "return" and (np.array_equal(np.asarray(got, dtype=object), np.asarray(want, dtype=object))
+                                                  if hasattr(want, "shape") else (not hasattr(got, "shape") or getattr(got, "size", 2) == 1) and got == want)
+                    if not same and bad is None:
+                        bad = (ignore, bf, red, kind, got, want)
+    except NotEvaluable as e:
+        col.undecided(f"{where}: the tail of the loss is outside the interpreted fragment ({e})")
+        return
+    col.floor("ocd_loss_table_rows", n_rows, 18)
+
+    def _show(v):
+        return str(v.tolist() if hasattr(v, "tolist") else v)[:90]
+    col.ob("G12", "S2", f"{where}::loss-table", bad is None,
+           (f"with ignore_index={bad[0]}, batch_first={bad[1]}, reduction={bad[2]!r} the loss tail computes {_show(bad[4]) if bad[3] == 'return' else 'raise ' + str(bad[4])} "
+            f"for the reference target lists; the documented value (per prefix: sum over its targets / max(#targets, 1); 'mean': per sequence, sum over "
+            f"prefixes / max(#prefixes with a target, 1), then the batch mean) is {_show(bad[5])}") if bad else "", rel, f.line, sample=dict(rows=n_rows))
 
 
 def _mutants():
